@@ -511,7 +511,15 @@ func checkCipherSuiteParser(c *Ctx, r *Report, parser *ssa.Function) {
 			}
 			nDef++
 			for g, depth := call.Block().Idom(), 0; g != nil && depth < 3; g, depth = g.Idom(), depth+1 {
-				if gt := lenTestOf(g); isAlg(gt) && gt != t {
+				// g decides whether the append runs only if one of its arms is the sole way to it
+				// (a test that merely comes earlier in the sequence dominates without deciding)
+				controls := false
+				for _, s := range g.Succs {
+					if len(s.Preds) == 1 && s.Dominates(call.Block()) {
+						controls = true
+					}
+				}
+				if gt := lenTestOf(g); controls && isAlg(gt) && gt != t {
 					coupled = "the default for an empty " + t + " list is appended under a test of the " + gt + " list's length"
 				}
 				if innermostLoop(loops, g) != innermostLoop(loops, call.Block()) {
